@@ -300,20 +300,52 @@ def path_emit_html(p, res):
             elif flat not in seen_flat:
                 seen_flat.add(flat)
                 res.ok(flat)
-    # CLOSE uses the same name variable as OPEN
-    opens = [n for n in f.body_nodes() if isinstance(n, ast.Call) and html_classify(c, None, n) == 'OPEN']
-    closes = [n for n in f.body_nodes() if isinstance(n, ast.Call) and html_classify(c, None, n) == 'CLOSE']
-    if len(opens) == 1 and len(closes) == 1 and src_of(opens[0].args[0]) == "'<%s' % name" and src_of(closes[0].args[0]) == "'</%s>' % name" \
-            and 'name = tag_name(node.name, config)' in src_of(f.node):
-        res.ok('open and close tag print the same tag_name(node.name, config)')
+    # the caret is not forgotten: an element with neither text nor children that is not self-closed gets it
+    for seq, s_ in c.exits:
+        if 'OPEN' in seq and 'CHILDREN' in seq and 'CARET' not in seq and 'VALUE' not in seq and 'SELFCLOSE' not in seq \
+                and c.cond_value(s_, 'node.value') is False and c.cond_value(s_, 'node.children') is False:
+            res.bad(F('PATH-EMIT-HTML', f, f.node, 'no caret: ' + ' '.join(seq), 'an element without text and children is printed without the caret tabstop', details=['path : ' + s_.show_trace()]))
+    # CLOSE prints the same name as OPEN, and that name went through tag_name()
+    from .. import shape
+    from ..shape import strparts
+    V = shape.View(p, f, inline=False)
+    opens = [n for n in V.nodes if isinstance(n, ast.Call) and html_classify(c, None, n) == 'OPEN']
+    closes = [n for n in V.nodes if isinstance(n, ast.Call) and html_classify(c, None, n) == 'CLOSE']
+    if len(opens) == 1 and len(closes) == 1:
+        po, pc = strparts(V.xe(opens[0].args[0])), strparts(V.xe(closes[0].args[0]))
+        if po is not None and pc is not None and len(po) == 2 and len(pc) == 3 and po[0] == '<' and pc[0] == '</' and pc[2] == '>' and po[1] == pc[1]:
+            nm = po[1][1]
+            if nm.startswith('tag_name(node.name, '):
+                res.ok('open and close tag print the same tag_name(node.name, config)')
+            elif nm == 'node.name':
+                res.bad(F('PATH-EMIT-HTML', f, opens[0], src_of(opens[0]), 'the tag name must go through tag_name() (output.tagCase)'))
+            else:
+                res.undecided('tag name %s' % nm, 'tag_name(node.name, config) expected')
+        elif po is not None and pc is not None and len(po) == 2 and len(pc) == 3 and po[1] != pc[1]:
+            res.bad(F('PATH-EMIT-HTML', f, closes[0], '%s / %s' % (src_of(opens[0]), src_of(closes[0])), 'open and close tag must print the same name'))
+        else:
+            res.undecided('open/close tag strings', "'<' name ... '</' name '>'")
     else:
-        res.bad(F('PATH-EMIT-HTML', f, f.node, 'open/close tag names', 'open and close tag must print the same name, taken from tag_name(node.name, config)'))
+        res.undecided('open/close tag', 'one open and one close emission expected')
     # attributes: every attribute that should be output is pushed, in list order
-    s = src_of(f.node)
-    if 'for attr in node.attributes:\n                if should_output_attribute(attr):\n                    push_attribute(attr, state)' in s:
-        res.ok('attributes pushed in list order behind should_output_attribute')
+    loops = [n for n in V.nodes if isinstance(n, ast.For) and any(isinstance(x, ast.Call) and html_classify(c, None, x) == 'ATTR' for x in ast.walk(n))]
+    if len(loops) == 1 and isinstance(loops[0].target, ast.Name):
+        lp = loops[0]
+        av = lp.target.id
+        calls = [x for x in ast.walk(lp) if isinstance(x, ast.Call) and html_classify(c, None, x) == 'ATTR']
+        facts = V.facts(calls[0], expand_defs=False) if len(calls) == 1 else set()
+        inner = {(a_, b_) for a_, b_ in facts if re.search(r'(?<![\w.])%s(?!\w)' % re.escape(av), a_)}
+        if src_of(lp.iter) == 'node.attributes' and len(calls) == 1 and src_of(calls[0].args[0]) == av and inner == {('should_output_attribute(%s)' % av, True)} \
+                and not any(isinstance(x, (ast.Break, ast.Continue, ast.Return)) for x in ast.walk(lp)):
+            res.ok('attributes pushed in list order behind should_output_attribute')
+        elif src_of(lp.iter) != 'node.attributes' and 'node.attributes' in src_of(lp.iter):
+            res.bad(F('PATH-EMIT-HTML', f, lp, 'for %s in %s' % (av, src_of(lp.iter)), 'every attribute must be pushed in list order (this iterates %s)' % src_of(lp.iter)))
+        elif src_of(lp.iter) == 'node.attributes' and len(calls) == 1 and not inner:
+            res.bad(F('PATH-EMIT-HTML', f, calls[0], src_of(calls[0]), 'attributes must be filtered by should_output_attribute (implied attributes without value are not printed)'))
+        else:
+            res.undecided('attribute loop', 'for attr in node.attributes: if should_output_attribute(attr): push_attribute(attr, state)')
     else:
-        res.bad(F('PATH-EMIT-HTML', f, f.node, 'attribute loop', 'every attribute must be pushed in list order, filtered only by should_output_attribute'))
+        res.undecided('attribute loop', 'one loop pushing the attributes expected')
     res.stats['exits'] = len(c.exits)
     res.stats['exits_with_open_tag'] = n_open
     res.require_floor(8)
@@ -326,7 +358,11 @@ def indent_classify(c, s, call):
         return 'NL'
     if name == 'push_string' and call.args:
         a = src_of(call.args[0])
-        if a == 's' or 'node.name' in a:
+        if isinstance(call.args[0], ast.Name):
+            vals = [v for v in c.p.local_assignments(c.f, call.args[0].id) if v is not None]
+            if len(vals) == 1:
+                a = src_of(vals[0])
+        if 'node.name' in a:
             return 'NAME'
         if 'selfClose' in a:
             return 'SELFCLOSE'
@@ -372,20 +408,70 @@ def path_emit_indent(p, res):
             elif flat not in seen_flat:
                 seen_flat.add(flat)
                 res.ok(flat)
-    s = src_of(f.node)
-    if "if node.name and (node.name != 'div' or not primary):" in s:
-        res.ok("name omitted only for div with id/class")
+    # the element name is omitted exactly for div elements that have an id or class (the first list of collect_attributes)
+    from .. import shape
+    from ..pattern import match_expr
+    V = shape.View(p, f, inline=False)
+    prim = sec = None
+    for n in V.nodes:
+        if isinstance(n, ast.Assign) and isinstance(n.targets[0], ast.Tuple) and len(n.targets[0].elts) == 2 and isinstance(n.value, ast.Call) \
+                and src_of(n.value.func) == 'collect_attributes' and all(isinstance(t, ast.Name) for t in n.targets[0].elts):
+            prim, sec = n.targets[0].elts[0].id, n.targets[0].elts[1].id
+    if prim is None:
+        res.undecided('primary, secondary = collect_attributes(node)', 'role of the attribute lists')
     else:
-        res.bad(F('PATH-EMIT-INDENT', f, f.node, "if node.name and (node.name != 'div' or not primary)", 'the element name is omitted exactly for div elements that have an id or class'))
-    if 'for index, child in enumerate(node.children):\n            walk_next(child, index, node.children)' in s:
+        def truth(s_, src):
+            for k, v in s_.facts.items():
+                if k[0] == 'cond' and k[1] in (src, 'bool(%s)' % src, 'len(%s) > 0' % src, 'len(%s)' % src):
+                    return v
+            return None
+        n_named = n_omit = 0
+        for seq, s_ in c.exits:
+            named = 'NAME' in seq
+            has_name = truth(s_, 'node.name')
+            isdiv = c.cond_value(s_, "node.name == 'div'")
+            if isdiv is None and c.cond_value(s_, "node.name != 'div'") is not None:
+                isdiv = not c.cond_value(s_, "node.name != 'div'")
+            hp = truth(s_, prim)
+            if named:
+                n_named += 1
+                if has_name is not True:
+                    res.undecided('name printed [%s]' % s_.show_trace(), 'node.name not known to be set')
+            elif has_name is False:
+                pass
+            elif isdiv is True and hp is True:
+                n_omit += 1
+            elif isdiv is True and hp is None:
+                res.bad(F('PATH-EMIT-INDENT', f, f.node, 'name omitted: ' + ' '.join(seq), 'the name `div` is dropped on a path that does not establish the element has an id or class: e.g. div[title] would lose its name',
+                          details=['path : ' + s_.show_trace()]))
+            elif isdiv is False or (isdiv is None and has_name is True):
+                res.bad(F('PATH-EMIT-INDENT', f, f.node, 'name omitted: ' + ' '.join(seq), 'an element other than div loses its name', details=['path : ' + s_.show_trace()]))
+        if n_named and n_omit:
+            res.ok('name omitted only for div with id/class')
+        names = [n for n in V.nodes if isinstance(n, ast.Call) and indent_classify(c, None, n) == 'NAME']
+        if len(names) == 1:
+            parts = shape.strparts(V.xe(names[0].args[0]))
+            if parts is not None and [x for x in parts if isinstance(x, tuple)] == [('x', "options.get('beforeName', '')"), ('x', 'node.name'), ('x', "options.get('afterName', '')")] \
+                    or parts is not None and [x[1].replace('state.options', 'options') for x in parts if isinstance(x, tuple)] == ["options.get('beforeName', '')", 'node.name', "options.get('afterName', '')"]:
+                res.ok('name printed between beforeName and afterName')
+            else:
+                res.undecided('name emission %s' % src_of(names[0]), 'beforeName + node.name + afterName')
+        pats = ['push_secondary_attributes(list(filter(should_output_attribute, %s)), $s)' % sec, 'push_secondary_attributes([$a for $a in %s if should_output_attribute($a)], $s)' % sec]
+        calls = V.calls('push_secondary_attributes')
+        if len(calls) == 1 and any(match_expr(pt, V.xe(calls[0])) is not None for pt in pats):
+            res.ok('secondary attributes filtered by should_output_attribute only')
+        elif len(calls) == 1 and src_of(V.xe(calls[0].args[0])) == sec:
+            res.bad(F('PATH-EMIT-INDENT', f, calls[0], src_of(calls[0]), 'secondary attributes must be filtered by should_output_attribute (implied attributes without value are not printed)'))
+        else:
+            res.undecided('secondary attribute filter', 'filter by should_output_attribute only')
+    if V.find_stmt('for $i, $c in enumerate(node.children):\n    walk_next($c, $i, node.children)'):
         res.ok('children walked in order')
     else:
-        res.bad(F('PATH-EMIT-INDENT', f, f.node, 'children loop', 'children must be walked in list order'))
-    if 'push_secondary_attributes(list(filter(should_output_attribute, secondary)), state)' in s or \
-            'push_secondary_attributes([a for a in secondary if should_output_attribute(a)], state)' in s:
-        res.ok('secondary attributes filtered by should_output_attribute only')
-    else:
-        res.bad(F('PATH-EMIT-INDENT', f, f.node, 'secondary attribute filter', 'secondary attributes must be filtered by should_output_attribute only'))
+        loops = [n for n in V.nodes if isinstance(n, ast.For) and any(isinstance(x, ast.Call) and src_of(x.func) == 'walk_next' for x in ast.walk(n))]
+        if len(loops) == 1 and isinstance(loops[0].iter, ast.Call) and src_of(loops[0].iter.func) in ('reversed', 'sorted'):
+            res.bad(F('PATH-EMIT-INDENT', f, loops[0], src_of(loops[0].iter), 'children must be walked in list order'))
+        else:
+            res.undecided('children loop', 'for i, child in enumerate(node.children): walk_next(child, i, node.children)')
     res.stats['exits'] = len(c.exits)
     res.require_floor(6)
 
@@ -1025,64 +1111,281 @@ def path_once(p, res):
 
 
 # ----------------------------------------------------------- PATH-EMIT-ATTR
+_EMITTERS = ('push_string', 'push', 'push_tokens', 'push_field', 'push_newline')
+
+
+def _emits(g):
+    return any(isinstance(n, ast.Call) and (getattr(n.func, 'attr', None) or getattr(n.func, 'id', None)) in _EMITTERS for n in g.body_nodes())
+
+
+def _emission(q):
+    """[(kind, pieces | argument source, call node)] of one path: 'str' pieces of push_string/push, 'tok' argument of push_tokens"""
+    from ..shape import strparts
+    out = []
+    for sym, n, conds in q.calls(*_EMITTERS):
+        nm = n.func.attr if isinstance(n.func, ast.Attribute) else n.func.id
+        r = q.resolve(n)
+        if nm in ('push_string', 'push') and r.args:
+            out.append(('str', strparts(r.args[0]), r, conds))
+        elif nm == 'push_tokens' and r.args:
+            out.append(('tok', src_of(r.args[0]), r, conds))
+        else:
+            out.append((nm, None, r, conds))
+    return out
+
+
+def _quote_role(piece):
+    """('open'|'close'|'estart'|'eend'|None, attribute source) of an inserted piece"""
+    from ..pattern import match_expr
+    if not (isinstance(piece, tuple) and piece[0] == 'x'):
+        return None, None
+    e = ast.parse(piece[1], mode='eval').body
+    b = match_expr('attr_quote($a, $c, True)', e) or match_expr('attr_quote($a, $c, is_open=True)', e)
+    if b is not None:
+        return 'open', src_of(b['a'])
+    b = match_expr('attr_quote($a, $c, False)', e) or match_expr('attr_quote($a, $c)', e) or match_expr('attr_quote($a, $c, is_open=False)', e)
+    if b is not None:
+        return 'close', src_of(b['a'])
+    if piece[1] == 'expression_start':
+        return 'estart', None
+    if piece[1] == 'expression_end':
+        return 'eend', None
+    return None, None
+
+
+def _check_quoted_value(res, rname, f, seq, where, what):
+    """seq = emission events after the name: nothing | ['=' open close] | ['=' open, tokens, close]; quotes must pair up"""
+    kinds = [k for k, _, _, _ in seq]
+    if not seq:
+        return 'none'
+    if kinds == ['str'] and seq[0][1] is not None and len(seq[0][1]) == 3 and seq[0][1][0] == '=':
+        lq, rq = _quote_role(seq[0][1][1]), _quote_role(seq[0][1][2])
+    elif kinds == ['str', 'tok', 'str'] and seq[0][1] is not None and seq[2][1] is not None and len(seq[0][1]) == 2 and seq[0][1][0] == '=' and len(seq[2][1]) == 1:
+        lq, rq = _quote_role(seq[0][1][1]), _quote_role(seq[2][1][0])
+    elif 'tok' in kinds and kinds.count('str') >= 1 and kinds.index('tok') == 0:
+        res.bad(F(rname, f, f.node, '%s: %s' % (what, ' ; '.join(src_of(r) for _, _, r, _ in seq)), 'the value is emitted before `=` and the opening quote', details=where))
+        return 'bad'
+    elif kinds == ['str', 'tok'] and seq[0][1] is not None and len(seq[0][1]) == 2 and seq[0][1][0] == '=':
+        res.bad(F(rname, f, f.node, '%s: %s' % (what, ' ; '.join(src_of(r) for _, _, r, _ in seq)), 'the closing quote is not emitted on this path', details=where))
+        return 'bad'
+    else:
+        return None
+    pair = (lq[0], rq[0])
+    if pair == ('open', 'close') and lq[1] == rq[1]:
+        return 'quoted'
+    if pair == ('estart', 'eend'):
+        return 'expression'
+    if None in pair:
+        return None
+    res.bad(F(rname, f, f.node, '%s: %s' % (what, ' ; '.join(src_of(r) for _, _, r, _ in seq)),
+              'opening and closing delimiter do not belong together (%s / %s): the value must sit between the matching pair' % pair, details=where))
+    return 'bad'
+
+
 @rule('PATH-EMIT-ATTR', 'N', 'an attribute is emitted as name, =, opening quote, value, matching closing quote; the name passes through attr_name')
 def path_emit_attr(p, res):
+    from .. import sympath, shape, norm
+    from ..pattern import match_expr
     f = p.func('markup.format.html.push_attribute')
-    s = src_of(f.node)
-    # quotes of one attribute: open and close from attr_quote on the same attribute, or the expression pair assigned together
-    if 'l_quote = attr_quote(attr, config, True)' in s and 'r_quote = attr_quote(attr, config, False)' in s:
-        res.ok('l_quote / r_quote = attr_quote(attr, config, True / False)')
-    else:
-        res.bad(F('PATH-EMIT-ATTR', f, f.node, 'l_quote / r_quote definitions', 'opening and closing quote must both come from attr_quote on the same attribute (open=True / False)'))
-    pm = p.parents(f)
-    lq = [n for n in f.body_nodes() if isinstance(n, ast.Assign) and src_of(n.targets[0]) == 'l_quote' and src_of(n.value) != 'attr_quote(attr, config, True)']
-    rq = [n for n in f.body_nodes() if isinstance(n, ast.Assign) and src_of(n.targets[0]) == 'r_quote' and src_of(n.value) != 'attr_quote(attr, config, False)']
-    if len(lq) == len(rq) and all(pm.get(a) is pm.get(b) and src_of(a.value) == 'expression_start' and src_of(b.value) == 'expression_end' for a, b in zip(lq, rq)):
-        res.ok('quotes are overridden only as the pair (expression_start, expression_end), together')
-    else:
-        res.bad(F('PATH-EMIT-ATTR', f, (lq + rq)[0] if (lq + rq) else f.node, ' ; '.join(src_of(x) for x in lq + rq), 'the two quotes may only be replaced together by the expression brace pair'))
-    seq = [src_of(n) for n in f.body_nodes() if isinstance(n, ast.Expr) and isinstance(n.value, ast.Call) and ('push_string' in src_of(n.value.func) or 'push_tokens' in src_of(n.value.func))]
-    want = ["out.push_string(' %s' % name)", "out.push_string('=%s' % l_quote)", 'push_tokens(value, state)', 'out.push_string(r_quote)', "out.push_string('=%s%s' % (l_quote, r_quote))"]
-    if seq == want:
-        res.ok('emission: " name" then ="  value  " (or ="" for valueless attributes in xml style)')
-    else:
-        res.bad(F('PATH-EMIT-ATTR', f, f.node, ' ; '.join(seq), 'attribute emission must be: space+name, =+opening quote, value tokens, closing quote'))
-    if 'if value:\n            out.push_string(\'=%s\' % l_quote)\n            push_tokens(value, state)\n            out.push_string(r_quote)' in s:
-        res.ok('value emitted between the quotes exactly when there is one')
-    else:
-        res.bad(F('PATH-EMIT-ATTR', f, f.node, 'if value: = l_quote value r_quote', 'the value goes between the opening and the closing quote'))
-    if s.index('name = attr_name(name, config)') < s.index("out.push_string(' %s' % name)") and s.index('name = get_multi_value(name, attributes, attr.multiple) or name') < s.index('name = attr_name(name, config)'):
-        res.ok('emitted name = attr_name(mapped name, config)')
-    else:
-        res.bad(F('PATH-EMIT-ATTR', f, f.node, 'name provenance', 'the emitted attribute name must be attr_name() of the (possibly mapped) name'))
-    if 'if not config.options.get(\'output.compactBoolean\'):\n                value = [name]' in s:
+    try:
+        paths = sympath.feasible(sympath.summaries(p, f, inline=True, select=lambda call, g: _emits(g)))
+    except sympath.Unsupported as e:
+        paths = []
+        res.undecided('html.push_attribute', str(e))
+    shapes = {}
+    A = f.params[0]
+    for q in paths:
+        em = _emission(q)
+        where = ['path: ' + q.cond_str()[:400]]
+        rc = q.rconds()
+        if rc.get('%s.name' % A) is False:
+            if em:
+                res.undecided('push_attribute without a name emits %s' % [src_of(r) for _, _, r, _ in em], 'nameless attributes print nothing')
+            continue
+        if not em:
+            res.bad(F('PATH-EMIT-ATTR', f, f.node, 'named attribute, nothing emitted', 'a named attribute prints nothing on this path', details=where))
+            continue
+        k0, parts, r0, _ = em[0]
+        name_ok = None
+        if k0 == 'str' and parts is not None and len(parts) == 2 and parts[0] == ' ' and isinstance(parts[1], tuple):
+            e = ast.parse(parts[1][1], mode='eval').body
+            b = match_expr('attr_name($n, $c)', e)
+            if b is not None:
+                n = src_of(b['n'])
+                nb = match_expr('get_multi_value(%s.name, $t, %s.multiple)' % (A, A), b['n'])
+                if n == '%s.name' % A or (nb is not None and 'markup.attributes' in src_of(nb['t'])):
+                    name_ok = True
+                else:
+                    name_ok = 'mapped name not recognised: %s' % n
+            elif parts[1][1] == '%s.name' % A or match_expr('get_multi_value(%s.name, $t, %s.multiple)' % (A, A), e) is not None:
+                name_ok = False
+        if name_ok is True:
+            pass
+        elif name_ok is False:
+            res.bad(F('PATH-EMIT-ATTR', f, f.node, src_of(r0), 'the emitted attribute name must be attr_name() of the (possibly mapped) name: the case option is skipped', details=where))
+            continue
+        else:
+            res.undecided('first emission %s' % src_of(r0), 'space + attr_name(name) expected' if name_ok is None else name_ok)
+            continue
+        v = _check_quoted_value(res, 'PATH-EMIT-ATTR', f, em[1:], where, 'html attribute')
+        if v is None:
+            res.undecided('emission %s' % ' ; '.join(src_of(r) for _, _, r, _ in em), 'name then nothing | ="" | =", value, "')
+        elif v == 'expression' and rc.get("state.config.options.get('jsx.enabled')") is not True:
+            res.undecided('expression braces on %s' % q.cond_str()[:200], 'braces replace the quotes only for jsx value prefixes')
+        elif v != 'bad':
+            shapes[v] = shapes.get(v, 0) + 1
+    for v, n in sorted(shapes.items()):
+        res.ok('html.push_attribute: %d paths emit name then %s' % (n, {'none': 'nothing (compact boolean)', 'quoted': 'the value between matching quotes', 'expression': 'the value between expression braces'}[v]), n=2)
+    V = shape.View(p, f, inline=False)
+    if V.find_stmt("if not $c.options.get('output.compactBoolean'):\n    $v = [$n]"):
         res.ok('boolean attribute without value: value = [name] unless compactBoolean')
     else:
-        res.bad(F('PATH-EMIT-ATTR', f, f.node, 'boolean expansion', 'a boolean attribute expands to name="name" unless output.compactBoolean'))
+        res.undecided('boolean expansion', 'a boolean attribute expands to name="name" unless output.compactBoolean')
+    # ---- indent syntaxes: one iteration of push_secondary_attributes
     g = p.func('markup.format.indent_format.push_secondary_attributes')
-    s = src_of(g.node)
-    seq = [src_of(n) for n in g.body_nodes() if isinstance(n, ast.Expr) and isinstance(n.value, ast.Call) and ('push_string' in src_of(n.value.func) or 'push_tokens' in src_of(n.value.func))]
-    want = ['out.push_string(before)', "out.push_string(attr_name(attr.name or '', config))", "out.push_string('=%s' % options.get('booleanValue'))",
-            "out.push_string('=%s' % attr_quote(attr, config, True))", 'push_tokens(attr.value or caret, state)', 'out.push_string(attr_quote(attr, config))',
-            'out.push_string(glue)', 'out.push_string(after)']
-    if seq == want:
-        res.ok('indent syntaxes: before, name, (=booleanValue | =open quote, value, close quote), glue, after')
+    gn = norm.nf(p, g, select=lambda call, h: _emits(h))
+    loops = [x for x in shape.own_nodes(gn) if isinstance(x, ast.For)]
+    if len(loops) != 1:
+        res.undecided('push_secondary_attributes', 'one loop over the attributes expected')
     else:
-        res.bad(F('PATH-EMIT-ATTR', g, g.node, ' ; '.join(seq), 'attribute emission of the indent formatter changed: name, =, opening quote (is_open=True), value, closing quote (is_open omitted)'))
-    if 'if i != len(attrs) - 1 and glue:' in s:
-        res.ok('glue between attributes, not after the last')
-    else:
-        res.bad(F('PATH-EMIT-ATTR', g, g.node, 'glue condition', 'glue goes between attributes only'))
+        lp = loops[0]
+        defs = shape.defs_of(gn, params=g.params)
+        tgt = [t.id for t in ast.walk(lp.target) if isinstance(t, ast.Name)]
+        AV = tgt[-1]
+        try:
+            its = sympath.feasible(sympath.block_summaries(p, g, lp.body, env={k: shape.expand(v, defs) for k, v in defs.items()}))
+        except sympath.Unsupported as e:
+            its = []
+            res.undecided('push_secondary_attributes loop', str(e))
+        n_ok = 0
+        for q in its:
+            em = _emission(q)
+            where = ['iteration path: ' + q.cond_str()[:400]]
+            rc = q.rconds()
+            # trailing glue
+            glue = None
+            if em and em[-1][0] == 'str' and em[-1][1] is not None and len(em[-1][1]) == 1 and isinstance(em[-1][1][0], tuple) and 'glueAttribute' in em[-1][1][0][1]:
+                glue = em.pop()
+            if not em or em[0][0] != 'str' or em[0][1] is None or len(em[0][1]) != 1 or not isinstance(em[0][1][0], tuple) \
+                    or not any(match_expr(pt, ast.parse(em[0][1][0][1], mode='eval').body) is not None
+                               for pt in ("attr_name(%s.name or '', $c)" % AV, 'attr_name(%s.name, $c)' % AV, "attr_name('', $c)")):
+                res.undecided('indent attribute emission %s' % [src_of(r) for _, _, r, _ in em], 'attr_name(attr.name or "") first')
+                continue
+            rest = em[1:]
+            if len(rest) == 1 and rest[0][0] == 'str' and rest[0][1] is not None and len(rest[0][1]) == 2 and rest[0][1][0] == '=' and 'booleanValue' in rest[0][1][1][1]:
+                n_ok += 1
+                continue
+            v = _check_quoted_value(res, 'PATH-EMIT-ATTR', g, rest, where, 'indent attribute')
+            if v is None:
+                res.undecided('indent attribute emission %s' % ' ; '.join(src_of(r) for _, _, r, _ in em), 'name then nothing | =booleanValue | =", value, "')
+            elif v == 'quoted':
+                n_ok += 1
+            elif v == 'none':
+                n_ok += 1
+            if glue is not None:
+                gc = q.rconds(glue[3])
+                last = [k for k in gc if 'len(' in k and ('!=' in k or '<' in k or '==' in k)]
+                if not last:
+                    res.bad(F('PATH-EMIT-ATTR', g, lp, src_of(glue[2]), 'the glue is emitted after every attribute, also the last one: it goes between attributes only', details=where))
+        if n_ok:
+            res.ok('indent.push_secondary_attributes: %d iteration paths emit name, then (=booleanValue | value between matching quotes), glue only between' % n_ok, n=3)
     pa = p.func('markup.format.indent_format.push_primary_attributes')
-    s = src_of(pa.node)
-    if "if attr.value is not None:" in s and "state.out.push_string('.')" in s and "state.out.push_string('#')" in s and "re.sub('\\\\s+', '.', t) if isinstance(t, str) else t" in s:
-        res.ok('primary attributes: .class (spaces -> dots) and #id, only when a value exists')
+    pan = norm.nf(p, pa, select=lambda call, h: _emits(h))
+    loops = [x for x in shape.own_nodes(pan) if isinstance(x, ast.For)]
+    if len(loops) != 1 or not isinstance(loops[0].target, ast.Name):
+        res.undecided('push_primary_attributes', 'one loop expected')
     else:
-        res.bad(F('PATH-EMIT-ATTR', pa, pa.node, 'push_primary_attributes body', 'class is printed as .a.b and id as #x'))
+        AV = loops[0].target.id
+        try:
+            its = sympath.feasible(sympath.block_summaries(p, pa, loops[0].body))
+        except sympath.Unsupported as e:
+            its = []
+            res.undecided('push_primary_attributes loop', str(e))
+        for q in its:
+            em = _emission(q)
+            rc = q.rconds()
+            hasval = rc.get('%s.value is not None' % AV)
+            if hasval is None and rc.get('%s.value is None' % AV) is not None:
+                hasval = not rc['%s.value is None' % AV]
+            iscls = rc.get("%s.name == 'class'" % AV)
+            where = ['iteration path: ' + q.cond_str()]
+            if hasval is False:
+                if em:
+                    res.undecided('primary attribute without value emits %s' % [src_of(r) for _, _, r, _ in em], 'nothing expected')
+                else:
+                    res.ok('primary attribute without value prints nothing')
+                continue
+            if hasval is None:
+                if em and any(k == 'tok' and a == '%s.value' % AV for k, a, _, _ in em):
+                    res.bad(F('PATH-EMIT-ATTR', pa, loops[0], 'push_tokens(%s.value, ..) [%s]' % (AV, q.cond_str()), 'a class/id attribute without value (None) reaches push_tokens: TypeError', details=where))
+                else:
+                    res.undecided('primary attribute path %s' % q.cond_str(), 'value presence not tested')
+                continue
+            ks = [k for k, _, _, _ in em]
+            if ks != ['str', 'tok'] or em[0][1] is None or len(em[0][1]) != 1:
+                res.undecided('primary attribute emission %s' % [src_of(r) for _, _, r, _ in em], 'marker then value')
+                continue
+            marker = em[0][1][0]
+            if iscls is True:
+                if marker == '.' and "re.sub('\\\\s+', '.'," in em[1][1]:
+                    res.ok('class printed as .a.b (whitespace -> dots)')
+                elif marker != '.':
+                    res.bad(F('PATH-EMIT-ATTR', pa, loops[0], src_of(em[0][2]), 'class is printed with the `.` marker', details=where))
+                elif em[1][1] == '%s.value' % AV:
+                    res.bad(F('PATH-EMIT-ATTR', pa, loops[0], src_of(em[1][2]), 'several class names must be joined by dots (.a.b), not printed with the space', details=where))
+                else:
+                    res.undecided('class value %s' % em[1][1], 'whitespace replaced by dots')
+            elif iscls is False:
+                if marker == '#' and em[1][1] == '%s.value' % AV:
+                    res.ok('id printed as #x')
+                elif marker != '#':
+                    res.bad(F('PATH-EMIT-ATTR', pa, loops[0], src_of(em[0][2]), 'id is printed with the `#` marker', details=where))
+                else:
+                    res.undecided('id value %s' % em[1][1], 'the value itself')
+            else:
+                res.undecided('primary attribute path %s' % q.cond_str(), 'class / id not distinguished')
     ca = p.func('markup.format.indent_format.collect_attributes')
     ip = p.func('markup.format.indent_format.is_primary_attribute')
-    if "return attr.name == 'class' or attr.name == 'id'" in src_of(ip.node) and 'primary.append(attr)' in src_of(ca.node) and 'secondary.append(attr)' in src_of(ca.node):
-        res.ok('class and id are primary, everything else secondary, order kept')
+    from ..minieval import MiniEval, Rec
+    ev = MiniEval(p)
+    try:
+        tbl = {nm: bool(ev.call(ip, [Rec(name=nm)])) for nm in ('class', 'id', 'title', '', None)}
+    except Exception as e:
+        tbl = None
+    if tbl == {'class': True, 'id': True, 'title': False, '': False, None: False}:
+        res.ok('is_primary_attribute: exactly class and id')
+    elif tbl is None:
+        res.undecided('is_primary_attribute', 'decision table could not be read')
     else:
-        res.bad(F('PATH-EMIT-ATTR', ca, ca.node, 'collect_attributes', 'primary = class and id; all others secondary, in order'))
+        res.bad(F('PATH-EMIT-ATTR', ip, ip.node, 'is_primary_attribute decision table %s' % tbl, 'primary = class and id; all others secondary'))
+    can = norm.nf(p, ca, inline=True)
+    loops = [x for x in shape.own_nodes(can) if isinstance(x, ast.For)]
+    rets = [x for x in shape.own_nodes(can) if isinstance(x, ast.Return)]
+    if len(loops) == 1 and isinstance(loops[0].target, ast.Name) and src_of(loops[0].iter) == 'node.attributes' and len(rets) == 1 and isinstance(rets[0].value, ast.Tuple) and len(rets[0].value.elts) == 2:
+        AV = loops[0].target.id
+        P, S = [src_of(x) for x in rets[0].value.elts]
+        try:
+            its = sympath.feasible(sympath.block_summaries(p, ca, loops[0].body))
+        except sympath.Unsupported:
+            its = []
+        good = 0
+        for q in its:
+            rc = q.rconds()
+            prim = rc.get("%s.name == 'class'" % AV) is True or rc.get("%s.name == 'id'" % AV) is True
+            notprim = rc.get("%s.name == 'class'" % AV) is False and rc.get("%s.name == 'id'" % AV) is False
+            apps = [q.rsrc(n) for _, n, _ in q.calls('append')]
+            if prim and apps == ['%s.append(%s)' % (P, AV)]:
+                good += 1
+            elif notprim and apps == ['%s.append(%s)' % (S, AV)]:
+                good += 1
+            elif (prim and apps == ['%s.append(%s)' % (S, AV)]) or (notprim and apps == ['%s.append(%s)' % (P, AV)]):
+                res.bad(F('PATH-EMIT-ATTR', ca, loops[0], '%s [%s]' % (apps[0], q.cond_str()), 'primary and secondary attribute lists are swapped'))
+            elif not apps:
+                res.bad(F('PATH-EMIT-ATTR', ca, loops[0], 'no append [%s]' % q.cond_str(), 'an attribute is dropped from both lists'))
+            else:
+                res.undecided('collect_attributes path %s: %s' % (q.cond_str(), apps), 'append to primary or secondary')
+        if good:
+            res.ok('collect_attributes: class/id to the first list, others to the second, in order (%d paths)' % good)
+    else:
+        res.undecided('collect_attributes', 'loop over node.attributes returning (primary, secondary)')
     res.require_floor(10)
